@@ -345,3 +345,82 @@ package collection
 //@ func (*TimingWheel).drainAll$1
 //@   prop C10
 //@   ensures [task-handed-to-fn] calls(fn, task.key, task.value) == 1
+
+// ---------------- the wheel goroutine and its plumbing (C10) ----------------
+// One request = one step of the single wheel goroutine, dispatched to the operation of its kind with the data that
+// was sent: a tick to onTick, a set to setTask (value included), a remove to removeTask, a move to moveTask, a
+// drain to drainAll; after Stop the goroutine stops the ticker and ends (so later requests find stopChannel closed).
+//@ func (*TimingWheel).run
+//@   prop C10, C17
+//@   opaque onTick, setTask, removeTask, moveTask, drainAll, Chan, Stop
+//@   requires w != nil
+//@   let nSet = calls(on("recv", w.setChannel))
+//@   let nRemove = calls(on("recv", w.removeChannel))
+//@   let nMove = calls(on("recv", w.moveChannel))
+//@   let nDrain = calls(on("recv", w.drainChannel))
+//@   loop 1 iteration-ensures [one-operation-per-request] calls(onTick) + calls(setTask) + calls(removeTask) + calls(moveTask) + calls(drainAll) == 1 && calls("recv") == 1
+//@   loop 1 iteration-ensures [set-dispatched-with-its-data] nSet == 1 ==> calls(w.setTask) == 1 && arg(w.setTask, 1).key == ret(on("recv", w.setChannel)).key && arg(w.setTask, 1).value == ret(on("recv", w.setChannel)).value && arg(w.setTask, 1).delay == ret(on("recv", w.setChannel)).delay
+//@   loop 1 iteration-ensures [remove-dispatched] nRemove == 1 ==> calls(w.removeTask, ret(on("recv", w.removeChannel))) == 1
+//@   loop 1 iteration-ensures [move-dispatched] nMove == 1 ==> calls(w.moveTask) == 1 && arg(w.moveTask, 1).key == ret(on("recv", w.moveChannel)).key && arg(w.moveTask, 1).delay == ret(on("recv", w.moveChannel)).delay
+//@   loop 1 iteration-ensures [drain-dispatched] nDrain == 1 ==> calls(w.drainAll, ret(on("recv", w.drainChannel))) == 1
+//@   loop 1 iteration-ensures [tick-dispatched] nSet + nRemove + nMove + nDrain == 0 ==> calls(w.onTick) == 1
+//@   ensures [ends-only-on-stop] calls(on("recv", w.stopChannel)) == 1 && calls(Stop) == 1 && calls(onTick) + calls(setTask) + calls(removeTask) + calls(moveTask) + calls(drainAll) == 0
+
+// Drain hands the function to the wheel goroutine, or reports ErrClosed when the wheel was stopped.
+//@ func (*TimingWheel).Drain
+//@   prop C10
+//@   requires w != nil
+//@   ensures [handed-over-or-closed] (result == nil) == (calls(on("send", w.drainChannel)) == 1) && (result == ErrClosed) == (calls(on("recv", w.stopChannel)) == 1) && (result == nil || result == ErrClosed)
+//@   ensures [the-given-function] result == nil ==> arg(on("send", w.drainChannel), 0) == fn
+//@   modifies nothing
+//@ func (*TimingWheel).Stop
+//@   prop C10
+//@   requires w != nil
+//@   ensures [closes-stop-channel] calls(on("close", w.stopChannel)) == 1
+
+// Fired tasks run off the wheel goroutine, each exactly once with its own key and value, in scan order.
+//@ func (*TimingWheel).runTasks
+//@   prop C10, C17
+//@   ensures [nothing-for-empty] len(tasks) == 0 ==> calls("go (*TimingWheel).runTasks$1") == 0
+//@   ensures [one-runner] len(tasks) > 0 ==> calls("go (*TimingWheel).runTasks$1") == 1
+//@ func (*TimingWheel).runTasks$1
+//@   prop C10, C17
+//@   opaque RunSafe
+//@   loop 1 invariant -1 <= rangeindex
+//@   loop 1 iteration-ensures [each-task-once-in-order] calls(threading.RunSafe) == 1 && *captured(arg(threading.RunSafe, 0), int) == rangeindex
+//@ func (*TimingWheel).runTasks$1$1
+//@   prop C10, C17
+//@   requires 0 <= i && i < len(tasks)
+//@   ensures [executes-that-task] calls(w.execute, tasks[i].key, tasks[i].value) == 1
+
+// setTimerPosition: the index entry of the key points at the new slot and the new list item (an existing entry is
+// updated in place, otherwise one is created).
+//@ func (*TimingWheel).setTimerPosition
+//@   prop C10, C17
+//@   inline always
+//@   opaque Get, Put
+//@   requires w != nil && task != nil
+//@   let found = ret(Get, 1)
+//@   let ent = unbox(ret(Get, 0), ptr(positionEntry))
+//@   ensures [looked-up-by-key] calls(w.timers.Get, task.key) == 1
+//@   ensures [existing-updated] found && typeis(ret(Get, 0), ptr(positionEntry)) && ent != nil ==> ent.item == task && ent.pos == pos && calls(Put) == 0
+//@   ensures [new-created] !found ==> calls(w.timers.Put) == 1 && arg(w.timers.Put, 1) == task.key && unbox(arg(w.timers.Put, 2), ptr(positionEntry)).pos == pos && unbox(arg(w.timers.Put, 2), ptr(positionEntry)).item == task
+
+// Construction: the wheel starts "just before slot 0" (tickedPos = numSlots-1), with numSlots empty lists, and its
+// goroutine running; invalid parameters are refused.
+//@ func newTimingWheelWithClock
+//@   prop C10, C17
+//@   opaque NewSafeMap, initSlots
+//@   requires numSlots >= 1
+//@   ensures [initial-state] result1 == nil && result0 != nil && fresh(result0) && result0.interval == interval && result0.numSlots == numSlots && result0.tickedPos == numSlots - 1 && len(result0.slots) == numSlots && result0.execute == execute && result0.ticker == ticker && result0.timers == ret(NewSafeMap)
+//@   ensures [slots-initialised-then-goroutine] calls(result0.initSlots) == 1 && calls("go (*TimingWheel).run") == 1 && before(initSlots, "go (*TimingWheel).run")
+//@ func (*TimingWheel).initSlots
+//@   prop C10
+//@   requires w != nil && len(w.slots) == w.numSlots
+//@   loop 1 invariant 0 <= i && forall(j, 0, i, w.slots[j] != nil)
+//@   ensures [every-slot-has-a-list] forall(j, 0, w.numSlots, w.slots[j] != nil)
+//@ func NewTimingWheel
+//@   prop C10
+//@   opaque newTimingWheelWithClock, Errorf, NewTicker
+//@   ensures [invalid-refused] interval <= 0 || numSlots <= 0 || execute == nil ==> result0 == nil && result1 != nil && calls(newTimingWheelWithClock) == 0
+//@   ensures [valid-built] interval > 0 && numSlots > 0 && execute != nil ==> calls(newTimingWheelWithClock) == 1 && arg(newTimingWheelWithClock, 0) == interval && arg(newTimingWheelWithClock, 1) == numSlots && arg(newTimingWheelWithClock, 2) == execute && result0 == ret(newTimingWheelWithClock, 0) && calls(timex.NewTicker, interval) == 1
